@@ -100,6 +100,9 @@ Section WithCtx.
         apply ext_write_gen; cbn [ws_log_ev ws_pos]; rewrite ws_write_pos; lia.
   Qed.
 
+  Lemma ext_dir lo asy st z : lo <= ws_pos st -> ext lo st (ws_write_dir asy st z).
+  Proof. intros Hl. unfold ws_write_dir. eapply ext_trans; [now apply ext_write|]. apply ext_ev. now destruct asy. Qed.
+
   Lemma write_dir_ext lo asy c es st st' n : lo <= ws_pos st -> write_dir cx asy c es st = Ok (st', n) ->
     ext lo st st' /\ ws_pos st <= ws_pos st'.
   Proof.
@@ -107,7 +110,7 @@ Section WithCtx.
     destruct (compress cx asy c []) as [x| |]; cbn [bind] in H; try discriminate.
     destruct (encode_dir_plain es) as [plain| |]; cbn [bind] in H; try discriminate.
     destruct (compress cx asy c plain) as [z| |]; cbn [bind] in H; try discriminate.
-    inversion H; subst. split; [now apply ext_codec|]. rewrite ws_write_codec_pos. lia.
+    inversion H; subst. split; [now apply ext_dir|]. rewrite ws_write_dir_pos. lia.
   Qed.
 
   Lemma leaf_loop_ext asy c es start : forall fuel ls st st' ld,
